@@ -110,11 +110,14 @@ def run_unit(unit) -> UnitResult:
             r.count("symbols_checked")
             got = g.distanceToTerminal.get(c)
             # symbols that cannot derive anything through supplied classes are outside the reference
-            want = _ref_min_supplied(spec, xd, supplied, registered)[n]
+            want = _ref_min_supplied(spec, xd, supplied, registered, True)[n]
             if got != want:
+                conservative = _ref_min_supplied(spec, xd, supplied, registered, False)[n]
+                cause = "possibly-empty-list-counted-as-element" if got == conservative else "other"
                 r.add_violation(Violation(PROP, "Grammar.distanceToTerminal", "wrong-minimum-depth",
-                                          {"xd": xd, "sign": "over" if (got or 0) > want else "under"}, w,
-                                          f"{spec['name']}: distanceToTerminal[{n}] = {got}, shallowest program has depth {want}"))
+                                          {"sign": "over" if (got or 0) > want else "under", "cause": cause}, w,
+                                          f"{spec['name']} (expansion_depthing={xd}): distanceToTerminal[{n}] = {got}, "
+                                          f"shallowest program has depth {want}"))
         # --- recursion
         ref_rec = R.ref_recursive(_restrict(spec, registered))
         got_rec = {tname(c) for c in g.recursive_prods if c.__module__ != "builtins"}
@@ -150,12 +153,15 @@ def run_unit(unit) -> UnitResult:
         # --- validate the reference itself against the enumerated language (tree mode, finite-choice specs)
         if not xd:
             try:
-                D = refd[spec["start"]] + 1
-                lang = R.language(spec, D, cap=unit["lang_cap"])
+                refx = R.ref_min_depth(spec, False, exact=True)
+                for n in sorted(reach):
+                    if refx[n] >= R.INF:
+                        continue
+                    lang = R.language(spec, refx[n] + 1, cap=unit["lang_cap"], root=["ref", n])
+                    m = min((d for _, d in lang), default=R.INF)
+                    if m != refx[n]:
+                        raise AssertionError(f"reference min depth {refx[n]} != enumerated {m} for {spec['name']}:{n}")
                 r.count("reference_validated_by_enumeration")
-                m = min((d for _, d in lang), default=R.INF)
-                if m != refd[spec["start"]]:
-                    raise AssertionError(f"reference min depth {refd[spec['start']]} != enumerated {m} for {spec['name']}")
             except R.TooLarge:
                 r.count("reference_not_enumerable")
         r.states = 1
@@ -186,11 +192,12 @@ def _restrict(spec, names):
 _cache: dict = {}
 
 
-def _ref_min_supplied(spec, xd, supplied, registered):
-    key = (spec["name"], xd)
+def _ref_min_supplied(spec, xd, supplied, registered, exact):
+    key = (spec["name"], xd, exact)
     if key not in _cache:
-        _cache.clear()
-        _cache[key] = R.ref_min_depth(_restrict_refs(spec, registered), xd)
+        if len(_cache) > 8:
+            _cache.clear()
+        _cache[key] = R.ref_min_depth(_restrict_refs(spec, registered), xd, exact=exact)
     return _cache[key]
 
 
